@@ -43,7 +43,7 @@ META = {
         "object; blocks whose child rules are all %rewrite are replaced wholesale when a patch visit enters them",
         "logic-adjusted target: permanent lines are never deleted, ignore_changes lines keep the old text on a value change",
         "row texts are concrete (hash realisation); the configuration STRUCTURE is the symbolic input",
-        "rule families have pairwise disjoint sibling rules, none starting with the vendor's negation word",
+        "rule families F1a-F9 and F11 have pairwise disjoint sibling rules; F8 has rules whose first word merely starts with the negation word; F10 has two sibling block rules that both match one row",
     ],
     "outside": ["Juniper/Nokia/RouterOS/Ribbon flattened command syntaxes", "vendor %logic/%diff_logic functions",
                 "add_comments=True", "more than the listed slots per family / chains longer than 3"],
